@@ -75,7 +75,12 @@ Inductive call :=
 | CShutdown (i : N)
 | CExecCmd (i : N) (cmd : list N) (a : N)
 | CProgressCancel (tok : N)
-| COther (req : option N) (nm : list N) (v : N).
+| COther (req : option N) (nm : list N) (v : N)
+(* the notebook built-ins: a notebook n (version ver) with one cell (a text document `cell`, text txt);
+   a change that carries a new version only; the close names the notebook and its cell *)
+| CNbOpen (n : N) (ver : Z) (cell : N) (txt : N)
+| CNbChange (n : N) (ver : Z)
+| CNbClose (n : N) (cell : N).
 
 Definition other_name (nm : list N) : name := Some (117 :: 47 :: nm).       (* "u/" ++ nm *)
 
@@ -92,6 +97,9 @@ Definition meth_of (k : call) : name :=
   | CExecCmd _ _ _ => Some s_exec_cmd
   | CProgressCancel _ => Some s_progress_cancel
   | COther _ nm _ => other_name nm
+  | CNbOpen _ _ _ _ => Some s_nb_open
+  | CNbChange _ _ => Some s_nb_change
+  | CNbClose _ _ => Some s_nb_close
   end.
 
 (* `hasattr(message, "id")` *)
@@ -104,7 +112,12 @@ Definition req_id (k : call) : option N :=
 
 (* ------------------------------------------------------------------ what built-ins act on *)
 (* protocol._workspace (None before `initialize`; open text documents uri -> (version, text);
-   folders), protocol.trace, protocol._shutdown, the cancelled work-done-progress tokens *)
+   folders), protocol.trace, protocol._shutdown, the cancelled work-done-progress tokens.
+   `w_docs` is the document side of the workspace: `_text_documents` (text documents and notebook
+   cells alike, under their uri number) and, kept apart by the key range, `_notebook_documents`:
+   notebook n under key nb_key n with its version (and text 0).  Uri numbers of documents stay below
+   nb_key 0 (a well-formedness condition on messages, like the numbering itself). *)
+Definition nb_key (n : N) : N := 1000 + n.
 Record wsp := mkW {
   w_init : bool;
   w_docs : list (N * (Z * N));
@@ -177,6 +190,20 @@ Definition ws_effect (toks : list N) (k : call) (w : wsp) : option wsp :=
       then Some (mkW (w_init w) (w_docs w) (w_folders w) (w_trace w) (w_shut w) (w_cancelled w ++ [tok]))
       else Some w
   | COther _ _ _ => Some w
+  | CNbOpen n v cell t =>                                          (* put_notebook_document *)
+      if w_init w
+      then Some (set_docs (Assoc.set N.eqb cell (v, t) (Assoc.set N.eqb (nb_key n) (v, 0) (w_docs w))) w)
+      else None
+  | CNbChange n v =>                                               (* update_notebook_document, no cell changes *)
+      if negb (w_init w) then None
+      else match Assoc.get N.eqb (nb_key n) (w_docs w) with
+           | Some _ => Some (set_docs (Assoc.set N.eqb (nb_key n) (v, 0) (w_docs w)) w)
+           | None => None                                          (* self._notebook_documents[uri]: KeyError *)
+           end
+  | CNbClose n cell =>                                             (* remove_notebook_document *)
+      if w_init w
+      then Some (set_docs (Assoc.remove N.eqb cell (Assoc.remove N.eqb (nb_key n) (w_docs w))) w)
+      else None
   end.
 
 (* ------------------------------------------------------------------ what a handler's signature is *)
